@@ -1103,6 +1103,17 @@ impl Thread {
 
         report.reachable_objects = visitor.visited.len();
         report.edges = visitor.edges;
+        report.heap_depth.insert(global_id, 0);
+        for (id, _) in &visitor.parent {
+            let mut depth = 0;
+            let mut cur = *id;
+            while let Some(p) = visitor.parent.get(&cur) {
+                depth += 1;
+                cur = *p;
+            }
+            report.heap_depth.insert(*id, depth);
+        }
+        report.heap_parent = visitor.parent;
         report.bad = visitor.bad;
         report
     }
